@@ -593,6 +593,26 @@ def rule_default_update(ctx: Ctx, clause: str, require_perform_update: bool = Fa
         pp = flow.paths(up.node)
         good = len(pp) == 1 and pp[0].kind == "return" and isinstance(pp[0].value, ast.Call) and flow.match(
             "M_c.default_update(M_sim, M_env, self)", pp[0].value) is not None and flow.dump(pp[0].value.args[0]) == up.params[1]
+        if not good:
+            # the same thing with something wrapped around it: default_update(sim, env, self) runs on every path, and whenever it
+            # did not fail its result is what update() returns (what a wrapper does on the failing paths — e.g. an unpaired
+            # enter — is judged by the rules about those constructs, not by this shape)
+            good = bool(pp)
+            for q in pp:
+                calls = [e for e in q.events if e.name == "default_update" and not e.deferred]
+                if q.kind != "return" or len(calls) != 1 or [flow.dump(a) for a in calls[0].call.args] != [up.params[1], up.params[2], "self"]:
+                    good = False
+                    break
+                c = calls[0].call
+                err = ast.dump(ast.Subscript(value=c, slice=ast.Constant(value=0), ctx=ast.Load()))
+                failed = any((ast.dump(a) == err and pol is True) or (flow.is_syn(a, "$isnone") and ast.dump(a.args[0]) == err and pol is False) for a, pol in q.facts())
+                if failed:
+                    continue
+                v = q.value
+                passthrough = flow.dump(v) == flow.dump(c) or (isinstance(v, ast.Tuple) and len(v.elts) == 2 and flow.dump(v.elts[1]) == flow.dump(c) + "[1]")
+                if not passthrough:
+                    good = False
+                    break
         ctx.check(good, clause, "ORD.terminal", f"{sc.name}.update is default_update(sim, env, self)", up,
                   why_bad="update() does not delegate to default_update with its own sim and self", construct=f"{sc.name}.update:shape")
 
@@ -1006,6 +1026,12 @@ def rule_enter_installs(ctx: Ctx, clause: str, rule="TS.enter-installs", prev_ho
             n += 1
             v = m.path.value
             ok = enter_delegate(v) is not None or bool(flow.calls_in(v, "apply_new_vehicle_state")) if v is not None else False
+            if not ok and v is not None:
+                # installed by hand: modify_vehicle(<state>, <vehicle>.modify_vehicle_state(self | replace(self, ...)))
+                for c in flow.calls_in(v, "modify_vehicle_state"):
+                    a = flow.core(c.args[0]) if c.args else None
+                    if a is not None and (flow.dump(a) == "self" or (isinstance(a, ast.Call) and (dotted(a.func) or "") in ("replace", "dataclasses.replace") and a.args and flow.dump(flow.core(a.args[0])) == "self")):
+                        ok = True
             if not ok and prev_holders is not None:
                 prev = _bounded_previous(m.path, {s.name for s in states.state_classes(ctx.repo)})
                 if prev is not None and not (prev & prev_holders):
@@ -1179,6 +1205,18 @@ def rule_activity_writes(ctx: Ctx, clause: str, rule="TS.activity-write", min_si
         if fn.qualname.endswith("apply_new_vehicle_state"):
             ctx.ok(clause, rule, inst, fn, s.node, "the install point (its callers are checked)")
             continue
+        top_ = fn
+        while top_.outer is not None:
+            top_ = top_.outer
+        if top_.cls is not None and top_.cls.name in state_names and top_.name == "enter" and isinstance(s.node, ast.Call) and s.node.args:
+            a0 = None
+            for p in flow.paths(fn.node):
+                for ev in p.events:
+                    if ev.raw is s.node and ev.call.args:
+                        a0 = flow.core(ev.call.args[0])
+            if a0 is not None and (flow.dump(a0) == "self" or (isinstance(a0, ast.Call) and (dotted(a0.func) or "") in ("replace", "dataclasses.replace") and a0.args and flow.dump(flow.core(a0.args[0])) == "self")):
+                ctx.ok(clause, rule, inst, fn, s.node, f"{top_.cls.name}.enter installs itself by hand (same contract as apply_new_vehicle_state)")
+                continue
         # expanded argument on the paths that execute the call
         verdicts = []
         for p in flow.paths(fn.node):
